@@ -133,6 +133,28 @@ func c16r1(c *Ctx) {
 		se := c.P.Env(set)
 		gp := "P:" + paramName(set.Params[1])
 		found, foundBase := false, base == ""
+		// a schedule change takes effect on every path: with a non-nil schedule no return is reachable without the store
+		nilSched := map[edge]bool{}
+		for ed, fs := range se.EdgeFacts() {
+			for _, fct := range fs {
+				if !fct.Lin && fct.Pos && fct.Atom == nilAtom(gp) {
+					nilSched[ed] = true
+				}
+			}
+		}
+		everyPath := func(st *ssa.Store, what string) {
+			construct := sp.Name + ": SetNewGasConfig updates " + what + " on every path"
+			barriers := map[ssa.Instruction]bool{st: true}
+			for _, r := range returnsOf(set) {
+				if len(set.Blocks[0].Instrs) > 0 && (set.Blocks[0].Instrs[0] == ssa.Instruction(r) || reachesAvoiding(set, set.Blocks[0].Instrs[0], r, barriers, nilSched)) {
+					c.FailX(Oblig{Rule: rule, Func: FuncName(set), Construct: construct, Pos: c.P.InstrPos(st), Kind: "violation",
+						Detail:   "SetNewGasConfig can return at " + c.P.InstrPos(r) + " with a non-nil schedule without having copied " + what + ": after such a change " + sp.Name + " keeps charging a stale price",
+						Expected: "the copy on every path on which the schedule is not nil"})
+					return
+				}
+			}
+			c.OK(rule, FuncName(set), construct, c.P.InstrPos(st), "no return is reachable without the store unless the schedule is nil")
+		}
 		for _, b := range set.Blocks {
 			for _, in := range b.Instrs {
 				st, ok := in.(*ssa.Store)
@@ -144,6 +166,12 @@ func c16r1(c *Ctx) {
 					continue
 				}
 				fn, vt := fieldName(fa.X.Type(), fa.Field), se.Term(st.Val)
+				if fn == f && vt == "*"+gp+".BuiltInCost."+*sp.Cost {
+					everyPath(st, "."+f)
+				}
+				if base != "" && fn == base && vt == "*"+gp+".BaseOperationCost" {
+					everyPath(st, "."+base)
+				}
 				switch fn {
 				case f:
 					construct := sp.Name + ": SetNewGasConfig ." + f + " = " + vt
@@ -318,6 +346,41 @@ func c16r3(c *Ctx) {
 					recvT := e.Term(x.Common().Value)
 					if strings.Contains(recvT, "#") {
 						c.OK(rule, FuncName(change), "broadcast covers the container", c.P.InstrPos(x), "receiver "+recvT+" obtained from the container inside the loop over its keys")
+					}
+					// no function is skipped: once Get(key) has succeeded, neither the next iteration nor a return is reachable
+					// without the SetNewGasConfig call on what Get returned
+					var get *ssa.Call
+					if ex, ok := x.Common().Value.(*ssa.Extract); ok {
+						get, _ = ex.Tuple.(*ssa.Call)
+					}
+					if get == nil || InvokeName(get) != "BuiltInFunctionContainer.Get" {
+						c.Fail(rule, "undecided", FuncName(change), "broadcast skips no registered function", c.P.InstrPos(x), "the receiver of SetNewGasConfig is not what the container's Get returned")
+					} else {
+						barriers := map[ssa.Instruction]bool{x.(ssa.Instruction): true}
+						errCut := map[edge]bool{}
+						for ed, fs := range e.EdgeFacts() {
+							for _, f := range fs {
+								if !f.Lin && !f.Pos && f.Call == ssa.CallInstruction(get) && strings.HasPrefix(f.Atom, "ok:") {
+									errCut[ed] = true // Get failed: nothing to reprice
+								}
+							}
+						}
+						bad := ""
+						if reachesAvoiding(change, get, get, barriers, errCut) {
+							bad = "the loop can go on to the next key"
+						}
+						for _, r := range returnsOf(change) {
+							if reachesAvoiding(change, get, r, barriers, errCut) {
+								bad = "the function can return"
+							}
+						}
+						if bad == "" {
+							c.OK(rule, FuncName(change), "broadcast skips no registered function", c.P.InstrPos(x), "after a successful Get every path passes SetNewGasConfig on its result")
+						} else {
+							c.FailX(Oblig{Rule: rule, Func: FuncName(change), Construct: "broadcast skips no registered function", Pos: c.P.InstrPos(x), Kind: "violation",
+								Detail:   "after Get(key) succeeded " + bad + " without SetNewGasConfig having been called on that function: it keeps charging the previous schedule (e.g. a function that is not active yet and is activated later)",
+								Expected: "SetNewGasConfig on every function of the container, unconditionally"})
+						}
 					}
 				}
 			}
